@@ -9,6 +9,8 @@ RAISE_KINDS = {"RAISE": RuntimeError, "RAISE_TIMEOUT": TimeoutError, "RAISE_VALU
 # verdict strings outside the vocabulary ("any unknown verdict ... yields blocked"): empty, fragments and extensions of the real words
 UNKNOWN_KINDS = ["", "P", "PERM", "MIT", "EXEC", "ALLOW", "PERMITTED", "EXECUTE_NOW", "OK"]
 LOGICS = ["AND", "OR", "MAJORITY", "UNANIMOUS", "EXECUTOR_PRIORITY", "ASSESSOR_PRIORITY"]
+# what an agent attaches to its verdict ("the action data or message"): a verdict is a verdict whatever it carries - nothing, a number, a structure
+PAYLOADS = {"empty": "", "none": None, "zero": 0, "false": False, "list": [], "dict": {}, "data": {"rows": [1, 2]}, "long": "x" * 5000}
 
 
 class Stub:
@@ -19,6 +21,7 @@ class Stub:
         self.kind = "EXECUTE"
         self.conf = 0.9
         self.delay = 0.0        # seconds of real time this agent takes to answer (a slow model call)
+        self.payload_mode = "named"
 
     def express(self, signal):
         from operon_ai.core.types import ActionProtein
@@ -31,7 +34,8 @@ class Stub:
             if self.kind.startswith("RAISE_NOMSG"):
                 raise RAISE_KINDS[self.kind]()
             raise RAISE_KINDS[self.kind]("agent crashed")
-        return ActionProtein(self.kind, "payload-of-%s" % self.name, self.conf)
+        payload = "payload-of-%s" % self.name if self.payload_mode == "named" else PAYLOADS[self.payload_mode]
+        return ActionProtein(self.kind, payload, self.conf)
 
 
 def make_loop(logic, breaker, threshold=5, timeout=60.0, cache=True, agent_timeout=None):
